@@ -5,7 +5,9 @@ use crate::ops::{Op, RStep, TimeField, WStep};
 use crate::rng::Rng;
 use std::collections::BTreeSet;
 
-pub const NAMES: &[&str] = &["a", "ab", "a.b", "b", "é", "d.x", ".h", "x_w", "..x", "..."];
+/// `a\b` and `..\x`: a backslash is an ordinary name character for this crate (and on the host filesystem here);
+/// `a b`: names with a space
+pub const NAMES: &[&str] = &["a", "ab", "a.b", "b", "é", "d.x", ".h", "x_w", "..x", "...", "a\\b", "..\\x", "a b"];
 
 #[derive(Clone, Debug)]
 pub struct Universe {
